@@ -451,3 +451,10 @@ mod tests {
   }
 }
 
+
+// Verification hook (no behaviour change): public wrapper around the private
+// build_service_text.
+#[cfg(ellbur_totalmapper_verif)]
+pub fn verif_build_service_text(excludes: &[&str]) -> String {
+  build_service_text(excludes.iter().map(|s| *s))
+}
